@@ -10,6 +10,11 @@ def S_ZERO():
     """contract S, zero-operand part (cheap): included by every property whose algebra check replaces the square root by its contract"""
     from . import sqrt
     return [('ark sqrt zero cases (contract S)', sqrt.check_sqrt_zero_cases, ('ark',)), ('min sqrt zero cases (contract S)', sqrt.check_sqrt_zero_cases, ('min',))]
+def W_PARSE():
+    """contract W for the canonical 32-byte parse that decoding starts with (both builds)"""
+    from . import fields
+    return [('ark Fq integers/limbs/bytes/flags (canonical parse, contract W)', fields.check_w_ark, ('Fq',)), ('min Fq checked parsing (contract W)', fields.check_bytes_checked, ('min', 'Fq')),
+            ('ark Fq checked parsing', fields.check_bytes_checked, ('ark', 'Fq')), ('min Fq limb/byte packing (contract W)', fields.check_w_u32, ('Fq',))]
 def S_FULL():
     from . import sqrt
     return S_ZERO() + [('ark table-driven sqrt, nonzero operands (contract S)', sqrt.check_sqrt_ark_log, ()), ('min Tonelli-Shanks, nonzero operands (contract S)', sqrt.check_sqrt_min_log, ())]
@@ -18,7 +23,7 @@ def C02(t0):
     from . import curve
     from . import wiring
     jobs = [('min decode algebra', curve.check_decode_algebra, ('min',)), ('ark decode algebra', curve.check_decode_algebra, ('ark',)),
-            ('min decode funnel', wiring.check_decode_funnel, ('min',)), ('ark decode funnel', wiring.check_decode_funnel, ('ark',))] + S_ZERO()
+            ('min decode funnel', wiring.check_decode_funnel, ('min',)), ('ark decode funnel', wiring.check_decode_funnel, ('ark',))] + S_ZERO() + W_PARSE()
     curve.items_for('min'); curve.items_for('ark')
     obs = par.run_groups(jobs)
     return finish('C02', obs, t0, level='proof',
@@ -159,7 +164,7 @@ def C01(t0):
     """derived: C01 = C02 (decode = spec decode) + C03 (encode = spec encode, representation independent) + contract S + sign convention + Decaf bijection theorem"""
     from . import curve, group
     _warm()
-    jobs = _jobs_C02() + _jobs_C03() + S_FULL() + [('ark negate/named element methods', group.check_sums_and_named, ('ark',)), ('ark negate keeps the representation invariant (coordinate level)', curve.check_negate_poly, ())]
+    jobs = _jobs_C02() + _jobs_C03() + S_FULL() + W_PARSE() + [('ark negate/named element methods', group.check_sums_and_named, ('ark',)), ('ark negate keeps the representation invariant (coordinate level)', curve.check_negate_poly, ())]
     obs = par.run_groups(jobs)
     return finish('C01', obs, t0, level='proof',
         functions=['vartime_decompress, vartime_compress_to_field, vartime_compress (both builds)', 'both square-root routines', 'sign::Sign', 'all decoding/encoding entry points', 'Element::negate'],
